@@ -743,7 +743,7 @@ Section Props.
     intros HR Hs. destruct (reachable_inv _ _ _ HR) as (_ & _ & Hl).
     unfold step in Hs. dstep Hs. injection Hs as Hs; subst s'. simpl.
     assert (Hn : lck s <> Some w).
-    { intros E. destruct (Hl w E) as (y & Hy & Hh). unfold getw in *.
+    { intros Elk. destruct (Hl w Elk) as (y & Hy & Hh). unfold getw in *.
       match goal with Hx : nth_error (ws s) w = Some ?x, Hp : w_pc ?x = WCtxErr |- _ =>
         assert (y = x) by congruence; subst y; rewrite Hp in Hh; discriminate Hh end. }
     auto.
@@ -833,17 +833,17 @@ Section Props.
         replace (pred (length (chans s)) =? g) with true by (symmetry; apply Nat.eqb_eq; congruence).
         reflexivity.
       + intros g Hg Hnp.
-        assert (E : (match w_pc x with WParked h => cur s =? h | _ => false end) = false)
+        assert (Enp : (match w_pc x with WParked h => cur s =? h | _ => false end) = false)
           by (destruct (w_pc x); try reflexivity; discriminate Hnp).
-        rewrite E. split; [reflexivity|].
+        rewrite Enp. split; [reflexivity|].
         pose proof (proj1 (Hw w x Hx)) as Hpx.
         assert (Hlt : g < length (chans s)).
         { destruct (w_pc x); simpl in Hg; try discriminate Hg; inversion Hg; subst; simpl in Hpx; auto.
           discriminate Hnp. }
         destruct HI' as (Hc' & _ & _). simpl in Hc'.
-        match goal with |- exists c0, nth_error ?L g = Some c0 /\ _ =>
-          destruct (nth_error L g) as [c0|] eqn:Ec0;
-          [ exists c0; split; [reflexivity|];
+        match goal with |- exists _, nth_error ?L g = Some _ /\ _ =>
+          destruct (nth_error L g) as [dch|] eqn:Ec0;
+          [ exists dch; split; [reflexivity|];
             apply (proj2 (chans_ok_closed _ _ _ Hc' Ec0));
             rewrite app_length, upd_length; simpl; lia
           | apply nth_error_None in Ec0; rewrite app_length, upd_length in Ec0; simpl in Ec0; lia ] end.
@@ -947,3 +947,252 @@ Section Props.
       eapply step_ctx_done; eauto.
   Qed.
 End Props.
+
+(* ================================================================== *)
+(* the unrestricted claim "m Signals wake min(k,m) waiters" is false   *)
+(* ================================================================== *)
+
+(* controller events; everything else is a step of a waiter goroutine or of the library *)
+Definition is_ctl_event (l : lab) : bool :=
+  match l with
+  | LSpawn _ | LCallSignal | LCallBroadcast | LCancel _ | LRelease _ | LQuiesce => true
+  | _ => false
+  end.
+(* phase 1: complete Signal calls, interleaved with arbitrary progress of the waiters *)
+Definition signal_phase_lab (l : lab) : bool :=
+  negb (is_ctl_event l) || match l with LCallSignal => true | _ => false end.
+(* phase 2: no further controller calls; the harness only opens gates *)
+Definition settle_phase_lab (l : lab) : bool :=
+  negb (is_ctl_event l) || match l with LRelease _ => true | _ => false end.
+
+Definition gates_open (s : st) : bool :=
+  forallb (fun x => gate_open x GPre && gate_open x GPost) (ws s).
+Definition nentered (s : st) : nat := length (filter (fun x => entered (w_pc x)) (ws s)).
+(* waiters that had released the lock inside Wait in [s0] and are past the select in [s2] *)
+Definition woken_of (s0 s2 : st) : nat :=
+  length (filter (fun p => entered (w_pc (fst p)) && past_select (w_pc (snd p)))
+                 (combine (ws s0) (ws s2))).
+
+Definition signal_wakes_min_statement : Prop :=
+  forall cfg nctx s0 ls1 s1 ls2 s2,
+    reachable qstep (init cfg nctx) s0 -> ctl s0 = CtlIdle ->
+    (* k := nentered s0 waiters have entered Wait and released the lock;
+       then m := count is_retsig ls1 complete Signal calls ... *)
+    run qstep s0 ls1 = Some s1 -> forallb signal_phase_lab ls1 = true -> ctl s1 = CtlIdle ->
+    (* ... then, eventually: in every quiescent state with all gates open reached without
+       further Signal / Broadcast / cancel ... *)
+    run qstep s1 ls2 = Some s2 -> forallb settle_phase_lab ls2 = true ->
+    quiescent s2 = true -> gates_open s2 = true ->
+    (* ... at least min k m of the k waiters have got through their select *)
+    min (nentered s0) (count is_retsig ls1) <= woken_of s0 s2.
+
+Definition run_or (s : st) (ls : list lab) : st :=
+  match run qstep s ls with Some s' => s' | None => s end.
+
+Definition cex_cfg : list (gpos * nat) := [(GPost, 0); (GPost, 1)].
+(* both waiters release the lock and are held by the gate between the real unlock and the select *)
+Definition cex_ls0 : list lab :=
+  [LSpawn 0; TLockL 0; LCallWait 0; TSnapshot 0; LUnlockEnter 0; TRealUnlock 0;
+   LSpawn 1; TLockL 1; LCallWait 1; TSnapshot 1; LUnlockEnter 1; TRealUnlock 1].
+(* two complete Signal calls: one token buffered, the other dropped *)
+Definition cex_ls1 : list lab :=
+  [LCallSignal; TSigBuffer; LRetSignal; LCallSignal; TSigDrop; LRetSignal].
+(* gates opened; waiter 1 takes the token, waiter 0 parks for ever *)
+Definition cex_ls2 : list lab :=
+  [LRelease 0; LRelease 1; LUnlockExit 0; LUnlockExit 1; TSelCh 1; TPark 0;
+   TRelock 1; LRetWait 1 true true; THarnessUnlock 1].
+Definition cex_s0 : st := Eval vm_compute in run_or (init cex_cfg 2) cex_ls0.
+Definition cex_s1 : st := Eval vm_compute in run_or cex_s0 cex_ls1.
+Definition cex_s2 : st := Eval vm_compute in run_or cex_s1 cex_ls2.
+
+Theorem signal_wakes_min_refuted : ~ signal_wakes_min_statement.
+Proof.
+  intros H.
+  assert (Hc : min (nentered cex_s0) (count is_retsig cex_ls1) <= woken_of cex_s0 cex_s2).
+  { apply (H cex_cfg 2 cex_s0 cex_ls1 cex_s1 cex_ls2 cex_s2).
+    - exists cex_ls0. vm_compute. reflexivity.
+    - reflexivity.
+    - vm_compute. reflexivity.
+    - vm_compute. reflexivity.
+    - reflexivity.
+    - vm_compute. reflexivity.
+    - vm_compute. reflexivity.
+    - vm_compute. reflexivity.
+    - vm_compute. reflexivity. }
+  vm_compute in Hc. lia.
+Qed.
+
+(* the same witness as one run: two waiters released the lock, two Signal calls completed, both
+   gates opened, the system is quiescent, and waiter 0 is parked for ever *)
+Theorem signal_wakes_min_refuted_run :
+  exists ls s,
+    run qstep (init [(GPost, 0); (GPost, 1)] 2) ls = Some s /\
+    ls = cex_ls0 ++ cex_ls1 ++ cex_ls2 ++ [LQuiesce] /\
+    count is_retsig ls = 2 /\
+    quiescent s = true /\ gates_open s = true /\ ctl s = CtlIdle /\ lck s = None /\
+    map w_pc (ws s) = [WParked 0; WDone] /\
+    chans s = [mkCh false false].
+Proof.
+  exists (cex_ls0 ++ cex_ls1 ++ cex_ls2 ++ [LQuiesce]). eexists. split; [vm_compute; reflexivity|].
+  vm_compute. repeat split; reflexivity.
+Qed.
+
+(* ================================================================== *)
+(* non-vacuity: the model runs the histories the theorems talk about   *)
+(* ================================================================== *)
+
+Definition park0 : list lab :=
+  [LSpawn 0; TLockL 0; LCallWait 0; TSnapshot 0; LUnlockEnter 0; TRealUnlock 0; LUnlockExit 0; TPark 0].
+Definition park1 : list lab :=
+  [LSpawn 1; TLockL 1; LCallWait 1; TSnapshot 1; LUnlockEnter 1; TRealUnlock 1; LUnlockExit 1; TPark 1].
+Definition ret_nil (w : nat) : list lab := [TRelock w; LRetWait w true true; THarnessUnlock w].
+
+Definition final_pcs (cfg : list (gpos * nat)) (nctx : nat) (ls : list lab) : option (list wpc * option nat) :=
+  match run qstep (init cfg nctx) ls with Some s => Some (map w_pc (ws s), lck s) | None => None end.
+
+(* a parked waiter is woken by a Signal hand-off, re-locks and returns nil *)
+Example ex_signal_handoff :
+  final_pcs [(GNone, 0)] 1
+    (park0 ++ [LQuiesce; LCallSignal; TSigHandoff 0; LRetSignal] ++ ret_nil 0 ++ [LQuiesce])
+  = Some ([WDone], None).
+Proof. vm_compute. reflexivity. Qed.
+
+(* two parked waiters, two Signals: two hand-offs (the count theorem is tight) *)
+Example ex_two_signals :
+  let ls := park0 ++ park1 ++ [LCallSignal; TSigHandoff 1; LRetSignal; LCallSignal; TSigHandoff 0; LRetSignal]
+            ++ ret_nil 0 ++ ret_nil 1 ++ [LQuiesce] in
+  final_pcs [(GNone, 0); (GNone, 1)] 2 ls = Some ([WDone; WDone], None) /\
+  nparked (run_or (init [(GNone, 0); (GNone, 1)] 2) (park0 ++ park1)) = 2 /\
+  count is_handoff ls = 2.
+Proof. vm_compute. repeat split; reflexivity. Qed.
+
+(* Broadcast wakes a parked waiter and a waiter that has only taken its snapshot *)
+Example ex_broadcast :
+  final_pcs [(GNone, 0); (GPost, 1)] 2
+    (park0 ++ [LSpawn 1; TLockL 1; LCallWait 1; TSnapshot 1; LUnlockEnter 1; TRealUnlock 1]
+     ++ [LCallBroadcast; TBroadcast; LRetBroadcast; LRelease 1; LUnlockExit 1; TSelCh 1]
+     ++ ret_nil 1 ++ ret_nil 0 ++ [LQuiesce])
+  = Some ([WDone; WDone], None).
+Proof. vm_compute. reflexivity. Qed.
+
+(* cancellation of a parked waiter: returns the error without the lock *)
+Example ex_cancel_parked :
+  final_pcs [(GNone, 0)] 1 (park0 ++ [LCancel 0; TCancelEff 0; LRetWait 0 false false; LQuiesce])
+  = Some ([WDone], None).
+Proof. vm_compute. reflexivity. Qed.
+
+(* cancellation racing with a signal at the select: both arms are enabled, parking is not, and the
+   ctx arm leaves the token for another waiter *)
+Example ex_cancel_vs_signal :
+  let s := run_or (init [(GNone, 0); (GNone, 1)] 2)
+             [LSpawn 0; TLockL 0; LCallWait 0; TSnapshot 0; LUnlockEnter 0; TRealUnlock 0; LUnlockExit 0;
+              LCallSignal; TSigBuffer; LRetSignal; LCancel 0; TCancelEff 0] in
+  enabled s (TSelCh 0) = true /\ enabled s (TSelCtx 0) = true /\ enabled s (TPark 0) = false /\
+  final_pcs [(GNone, 0); (GNone, 1)] 2
+    ([LSpawn 0; TLockL 0; LCallWait 0; TSnapshot 0; LUnlockEnter 0; TRealUnlock 0; LUnlockExit 0;
+      LCallSignal; TSigBuffer; LRetSignal; LCancel 0; TCancelEff 0; TSelCtx 0; LRetWait 0 false false;
+      LSpawn 1; TLockL 1; LCallWait 1; TSnapshot 1; LUnlockEnter 1; TRealUnlock 1; LUnlockExit 1; TSelCh 1]
+     ++ ret_nil 1 ++ [LQuiesce])
+  = Some ([WDone; WDone], None).
+Proof. vm_compute. repeat split; reflexivity. Qed.
+
+(* the enabling hypotheses of the two return theorems are satisfiable *)
+Example ex_ret_enabled :
+  enabled (run_or (init [(GNone, 0)] 1) (park0 ++ [LCallSignal; TSigHandoff 0; LRetSignal; TRelock 0]))
+          (LRetWait 0 true true) = true /\
+  enabled (run_or (init [(GNone, 0)] 1) (park0 ++ [LCancel 0; TCancelEff 0]))
+          (LRetWait 0 false false) = true.
+Proof. vm_compute. split; reflexivity. Qed.
+
+(* ================================================================== *)
+(* no spurious token wake-ups                                          *)
+(* ================================================================== *)
+
+(* the token currently stored in the open generation *)
+Definition tok_cur (s : st) : nat :=
+  match nth_error (chans s) (cur s) with Some c => b2n (ch_tok c) | None => 0 end.
+
+(* the step wakes a waiter by a token: a hand-off, or the channel arm on an open channel *)
+Definition is_tokwake (s : st) (l : lab) : bool :=
+  match l with
+  | TSigHandoff _ => true
+  | TSelCh w =>
+      match getw s w with
+      | Some x => match w_pc x with
+                  | WSelect g => match nth_error (chans s) g with
+                                 | Some c => negb (ch_closed c)
+                                 | None => false
+                                 end
+                  | _ => false
+                  end
+      | None => false
+      end
+  | _ => false
+  end.
+
+Fixpoint tokwakes (s : st) (ls : list lab) : nat :=
+  match ls with
+  | [] => 0
+  | l :: ls' => match qstep s l with
+                | Some s1 => b2n (is_tokwake s l) + tokwakes s1 ls'
+                | None => 0
+                end
+  end.
+
+Lemma step_tokens s l s' :
+  Inv s -> step s l = Some s' ->
+  b2n (is_tokwake s l) + tok_cur s' <= b2n (is_sigcs l) + tok_cur s.
+Proof.
+  intros HI Hs. pose proof (proj1 HI) as Hc. unfold step in Hs.
+  destruct l; dstep Hs; try discriminate Hs; injection Hs as Hs; subst s'; unfold tok_cur, cur; simpl;
+    try lia.
+  - (* TSelCh on a closed generation: not a token wake-up *)
+    match goal with Hx : getw s _ = Some ?x, Hp : w_pc ?x = WSelect ?g,
+                    Hg : nth_error (chans s) ?g = Some ?c, Hcl : ch_closed ?c = true |- _ =>
+      rewrite Hx, Hp, Hg, Hcl end. simpl. lia.
+  - (* TSelCh consuming the token of the open generation *)
+    match goal with Hx : getw s _ = Some ?x, Hp : w_pc ?x = WSelect ?g,
+                    Hg : nth_error (chans s) ?g = Some ?c, Hcl : ch_closed ?c = false,
+                    Ht : ch_tok ?c = true |- _ =>
+      rewrite Hx, Hp, Hg, Hcl; pose proof (chans_ok_open _ _ _ Hc Hg Hcl) as Eg; subst g;
+      rewrite upd_length, nth_error_upd_same by (apply chans_ok_cur; exact Hc);
+      rewrite Hg, Ht end. simpl. lia.
+  - (* TSigBuffer *)
+    rewrite upd_length, nth_error_upd_same by (apply chans_ok_cur; exact Hc). simpl. lia.
+  - (* TBroadcast: the fresh generation is empty *)
+    rewrite app_length, upd_length. simpl length.
+    replace (Init.Nat.pred (length (chans s) + 1)) with (length (chans s)) by lia.
+    rewrite nth_error_app2 by (rewrite upd_length; lia). rewrite upd_length, Nat.sub_diag. simpl. lia.
+Qed.
+
+(* along every run: token wake-ups + the token still buffered <= Signal critical sections
+   + the token buffered at the start *)
+Lemma tokwakes_le_inv : forall ls s s',
+  Inv s -> run qstep s ls = Some s' ->
+  tokwakes s ls + tok_cur s' <= count is_sigcs ls + tok_cur s.
+Proof.
+  induction ls as [|l ls IH]; intros s s' HI Hr; simpl in Hr |- *.
+  - inversion Hr; subst. unfold count; simpl. lia.
+  - destruct (qstep s l) as [s1|] eqn:Hq; [|discriminate].
+    pose proof (inv_qstep _ _ _ HI Hq) as HI1. specialize (IH s1 s' HI1 Hr). rewrite count_cons.
+    destruct (qstep_cases _ _ _ Hq) as [(-> & -> & _)|Hs]; [simpl; exact IH|].
+    pose proof (step_tokens _ _ _ HI Hs). lia.
+Qed.
+
+Theorem cond_no_spurious_wakeup cfg nctx ls s :
+  run qstep (init cfg nctx) ls = Some s ->
+  tokwakes (init cfg nctx) ls + tok_cur s <= count is_sigcs ls /\
+  (forall ls' s', run qstep s ls' = Some s' ->
+                  tokwakes s ls' + tok_cur s' <= count is_sigcs ls' + tok_cur s).
+Proof.
+  intros Hr. split.
+  - pose proof (tokwakes_le_inv _ _ _ (Inv_init cfg nctx) Hr) as H.
+    change (tok_cur (init cfg nctx)) with 0 in H. lia.
+  - intros ls' s' Hr'. apply tokwakes_le_inv; [|exact Hr'].
+    apply (reachable_inv cfg nctx). exists ls. exact Hr.
+Qed.
+
+Example ex_tokwakes :
+  tokwakes (init cex_cfg 2) (cex_ls0 ++ cex_ls1 ++ cex_ls2) = 1 /\
+  count is_sigcs (cex_ls0 ++ cex_ls1 ++ cex_ls2) = 2.
+Proof. vm_compute. split; reflexivity. Qed.
